@@ -422,6 +422,8 @@ func (a *agg) addBatch(b *Batch, br *BatchResult, keepSamples int) {
 		t.SyncOps += s.SyncOps
 		t.StarveGuards += s.StarveGuards
 		t.Naps += s.Naps
+		t.ChanOps += s.ChanOps
+		t.LeakedTasks += s.LeakedTasks
 		if s.MaxOpSteps > t.MaxOpSteps {
 			t.MaxOpSteps = s.MaxOpSteps
 		}
